@@ -325,6 +325,37 @@ theorem yes_certificate_sound (s : DS.DSymData) (f : Facts) (hf : FactsOf s f)
     oc, fg, t, hsoc, hdim, hfg, hV, gens, srels, hoc, hsize, hidx, heK, heP, hai, hexp,
     C15.ptc_cover_has_H1_Z3 s cov hs hsz hconn ho⟩
 
+/-- **prefix_total** — totality of everything the models compute.  For a valid D-symbol in the
+    domain of `is_euclidean` (dimension 3, complete, every adjacent branching number `≤ 6` and
+    `≠ 5`: the three assertions of `pseudo_toroidal_cover`) on which the model of
+    `orbifold_invariant` returns: the model of the part of `is_euclidean` before `simplify`
+    returns — no panic and no exhausted fuel in `pseudo_toroidal_cover`
+    (C15 `pseudo_toroidal_cover_total`) —, there ARE facts agreeing with the models (`FactsOf`),
+    and on all such facts the cascade (`decide_total`: exactly one verdict, a documented message)
+    announces what the model announces.  What remains outside: totality of `orbifold_invariant`
+    itself (hypothesis here; Spec clause `returns-a-verdict-without-panic`) and the callee
+    functions behind `simplify` (no model). -/
+theorem prefix_total (s : DS.DSymData) (hs : DS.ValidSym s) (hsz : 1 ≤ s.size)
+    (hd3 : s.dim = 3) (hcompl : s.isCompletePartial = true)
+    (hcr : D3.crystCheck s (List.range s.dim) = .ok ())
+    (inv : String) (hinv : orbifoldInvariant s = .ok inv) :
+    (∃ r, isEuclideanPrefix s = .ok r) ∧
+    (∃ f, FactsOf s f) ∧
+    (∀ f, FactsOf s f → ∀ v c, isEuclideanPrefix s = .ok (some v, c) → decideVerdict f = v) := by
+  obtain ⟨o, ho⟩ := (C15.pseudo_toroidal_cover_total s hs hsz).1 hd3 hcompl hcr
+  refine ⟨?_, ?_, fun f hf v c h => prefix_verdict_is_cascade s f hf v c h⟩
+  · unfold isEuclideanPrefix
+    rw [hinv]
+    simp only
+    split
+    · exact ⟨_, rfl⟩
+    · rw [ho]
+      cases o with
+      | none => exact ⟨_, rfl⟩
+      | some c => exact ⟨_, rfl⟩
+  · exact ⟨{ (default : Facts) with invInTable := inInvariantTable inv, coverFound := o.isSome },
+      inv, hinv, rfl, fun _ => ⟨o, ho, rfl⟩⟩
+
 /-! ### open (not theorems): the statements, for the record -/
 
 /-- `t` is `s` with the chambers renumbered by `p` -/
